@@ -111,6 +111,43 @@ impl<K: KeyT> World<K> {
             }
             None => out,
         };
+        // ---------------- probes that alias stored memory: a lookup with a proper prefix *slice* of a stored string
+        // (same start address, shorter) must answer like a lookup with a copy of those bytes
+        if op == "get" && via.is_none() && self.slots[si].shadow.tracked && !matches!(self.slots[si].obj, Obj::Resolver(..) | Obj::Gone) {
+            if let Some(&kk) = self.slots[si].shadow.index.get(&bytes) {
+                if let Some(key) = key::<K>(kk) {
+                    let mut bad: Vec<String> = Vec::new();
+                    {
+                        let obj = &self.slots[si].obj;
+                        let sh = &self.slots[si].shadow;
+                        if let Some(stored) = obj.try_resolve(&key) {
+                            let n = stored.len();
+                            for l in [n.saturating_sub(1), n / 2, 1usize] {
+                                if l == 0 || l >= n || !stored.is_char_boundary(l) {
+                                    continue;
+                                }
+                                let probe: &str = &stored[..l];
+                                let want = sh.index.get(probe.as_bytes()).copied();
+                                let got = guarded(|| obj.get(probe));
+                                match got {
+                                    Caught::Ok(Some(g)) => {
+                                        let g = g.map(|k| k.into_usize());
+                                        if g != want {
+                                            bad.push(format!("get of the first {l} bytes of the stored string of key {kk} (a slice of the interner's own memory) = {g:?}, expected {want:?}"));
+                                        }
+                                    }
+                                    Caught::Ok(None) => {}
+                                    _ => bad.push(format!("get of a prefix slice of the stored string of key {kk} panicked")),
+                                }
+                            }
+                        }
+                    }
+                    for b in bad {
+                        self.fail("C02", "aliasing-probe-wrong", b);
+                    }
+                }
+            }
+        }
         // ---------------- oracle
         let sh = &self.slots[si].shadow;
         if sh.tracked && out != "bad-op" && out != "no-route" && out != "fault" {
